@@ -87,17 +87,16 @@ theorem frozen_step {cfg : Cfg} {s s' : State} {a : Action} (hg : cfg.std = true
       split at hs <;> simp at hs <;> subst hs <;> frame_close0
   case nrun nid =>
     unfold stepNrun at hs
+    std_norm hg at hs
+    simp only [casStep] at hs
     split at hs
     · simp at hs
     · split at hs
-      · simp at hs; subst hs; frame_close0
-      · split at hs
-        · simp at hs
-        · split at hs <;> simp at hs <;> subst hs <;> frame_close0
-      · split at hs
-        · simp at hs
-        · split at hs <;> simp at hs <;> subst hs <;> frame_close0
-      · simp at hs
+      all_goals (try (split at hs))
+      all_goals (try (split at hs))
+      all_goals (try (simp at hs))
+      all_goals (try subst hs)
+      all_goals frame_close0
   case nwrite nid o =>
     unfold stepNwrite at hs
     split at hs
